@@ -129,23 +129,35 @@ func evalC17Term(w *fw.W, body, aux string) {
 		return
 	}
 	w.NonTrivial()
-	// differential: what follows the terminator must tokenize exactly as after an EMPTY construct
-	// (opener + terminator + rest), shifted by the body length: same state reached from elsewhere.
 	rest := text[resume:]
-	term := text[idx:resume]
-	short := cs.opener + cs.pre + term + rest
-	toks2, _ := lib.VerifH5Tokens(short, 0)
-	d := idx - len(cs.pre)
-	a, b := "", ""
+	after := ""
 	if len(toks) > cs.k+1 {
-		a = shiftToks(toks[cs.k+1:], 0)
+		after = shiftToks(toks[cs.k+1:], 0)
 	}
-	if len(toks2) > cs.k+1 {
-		b = shiftToks(toks2[cs.k+1:], d)
-	}
-	if a != b {
-		w.Fail("resume", fmt.Sprintf("%s: tokens after the terminator differ from those after an empty construct: %q vs %q (shifted by %d)", cs.name, a, b, d))
-		return
+	if cs.k == 0 {
+		// comment-like constructs return to the data state: what follows the terminator must be exactly
+		// the data-context tokenization of the remaining text, shifted to where it starts
+		restToks, _ := lib.VerifH5Tokens(rest, 0)
+		want := shiftToks(restToks, len(cs.opener)+resume)
+		if after != want {
+			w.Fail("resume", fmt.Sprintf("%s: tokens after the terminator %q differ from the data-state tokens of the remaining text %q: %q", cs.name, after, rest, want))
+			return
+		}
+	} else {
+		// quoted values continue inside the tag: what follows must tokenize exactly as after an EMPTY value
+		// (opener + terminator + rest), shifted by the body length: same state reached from elsewhere
+		term := text[idx:resume]
+		short := cs.opener + cs.pre + term + rest
+		toks2, _ := lib.VerifH5Tokens(short, 0)
+		d := idx - len(cs.pre)
+		b := ""
+		if len(toks2) > cs.k+1 {
+			b = shiftToks(toks2[cs.k+1:], d)
+		}
+		if after != b {
+			w.Fail("resume", fmt.Sprintf("%s: tokens after the terminator differ from those after an empty construct: %q vs %q (shifted by %d)", cs.name, after, b, d))
+			return
+		}
 	}
 	w.Outcome(uint64(idx+1)<<8 | uint64(len(toks)))
 }
